@@ -145,6 +145,13 @@ DefaultInstance(n) ==
 \* documents for C13: every SUBSET of the defaulted fields omitted, every other field present with a non-default value
 OmitSubsets(n) == {[t |-> "rec", v |-> SelectSeq(RecBase(n).v, LAMBDA e : \A i \in S : FieldsOf(n)[i].n # e.k)] : S \in SUBSET DefaultedIdx(n)}
 
+\* ... and documents that SUPPLY a defaulted container field as an empty container (a value that is present wins, even an
+\* empty one over a non-empty default)
+EmptyOf(ty) == IF ty.k = "arr" THEN [t |-> "arr", v |-> <<>>] ELSE [t |-> "map", v |-> <<>>]
+EmptySupplied(n) ==
+  {[t |-> "rec", v |-> [j \in DOMAIN RecBase(n).v |-> IF RecBase(n).v[j].k = FieldsOf(n)[i].n THEN [k |-> RecBase(n).v[j].k, v |-> EmptyOf(FieldsOf(n)[i].ty)] ELSE RecBase(n).v[j]]] :
+      i \in {x \in DefaultedIdx(n) : FieldsOf(n)[x].ty.k \in {"arr", "map"}}}
+
 -----------------------------------------------------------------------------
 (* Norm: the normal form under abstract equality (C10).  Two values are abstractly equal iff their normal forms are  *)
 (* identical: record fields and map entries become SETS (supply / insertion order is irrelevant), everything else is  *)
